@@ -30,13 +30,15 @@ MODELS = [
     {'classes': [A0, B0], 'order': ['A', 'B']},
     {'classes': [A1, COL], 'order': ['Color', 'A']},
     {'classes': [A2, S2, B2], 'order': ['B', 'S', 'A']},
-    {'classes': [], 'order': []},
+    # a root class that accepts anything (the documented `_yatiml_recognize: pass`)
+    {'classes': [{'name': 'U', 'kind': 'obj', 'bases': [], 'recognize': 'permissive',
+                  'params': [{'name': 'a', 'type': 'any', 'default': ['none']}]}], 'order': ['U']},
 ]
 DOC_TYPES = [
     [['ref', 'A'], ['ref', 'B'], ['list', ['ref', 'A']], 'any'],
     [['ref', 'A'], ['dict', 'str', ['ref', 'A']], ['ref', 'Color'], ['union', ['ref', 'A'], 'int']],
     [['ref', 'A'], ['list', ['ref', 'A']], ['ref', 'S'], 'any'],
-    ['any', ['dict', 'str', 'int'], 'float', ['list', 'str']],
+    ['any', ['dict', 'str', 'int'], ['ref', 'U'], ['opt', 'float']],
 ]
 # "model 4": the classes of model 2, registered without the base class A (a
 # function that knows only B and S must not apply A's hooks)
@@ -48,7 +50,8 @@ DOCS = ['{a: 1}', '{a: x}', '{a: 1, b: 2}', '{x: {a: 1}}', '[{a: 1}, {a: 2}]', '
         '!A {a: 1}', '!B {x: {a: 1}}', '{x: {a: 1}, n: !A {a: 1}}', '{k: !A {a: 1}}',
         'yes', '1e5', '{a: 1, zz: 2}', '&x [*x]', '', '{a: 1, s: hello, some-key: 3}',
         '{k: {a: q}}', '[a, b]', '{k: 1}', '1.5', ': :', '!Color red', '{a: [}',
-        '{x: &n {a: 1}, n: *n}', '[{a: 1, s: x, some-key: 3}]', '{k: {a: 2, s: y, other-key: z}}']
+        '{x: &n {a: 1}, n: *n}', '[{a: 1, s: x, some-key: 3}]', '{k: {a: 2, s: y, other-key: z}}',
+        '# only a comment\n', '~']
 VALUES = [
     [['obj', 'A', [['a', ['int', 1]]], None],
      ['obj', 'B', [['x', ['obj', 'A', [['a', ['int', 2]]], None]], ['n', ['list', [['str', '1e5'], ['none']]]]], None],
